@@ -112,4 +112,23 @@ PROPS = {
             "shipped fields: derive products are recomputed from the decoded modulus and generator (attribute strings of /repo are not embedded)",
         ],
     },
+    "C09": {
+        "runs": [{"bin": "mon_ser"}, {"bin": "mon_ser", "variant": "rel", "tiers": ["thorough"]}],
+        "assumptions": BASE_ASSUME + [
+            "expected bytes come from an oracle-side encoder of the documented format (serialize/src/flags.rs, ec */serialization_flags.rs, bls12_381 zcash layout); the repository's documented format is the specification",
+            "elements are built/decoded from raw Montgomery limbs by the oracle; uniqueness is demanded of field encodings only (DESIGN §7)",
+            "points on shipped curves are produced with the group law / harness double-and-add (C03/C04) and unchecked lifts (C11)"],
+    },
+    "C10": {
+        "runs": [{"bin": "mon_ser"}, {"bin": "mon_ser", "variant": "rel", "tiers": ["thorough"]}],
+        "assumptions": BASE_ASSUME + [
+            "an accepted point is re-checked with plain field operations (C01/C02) and r*P by a harness double-and-add over the group's own +/double (C03); toy curves: plain u64 enumeration",
+            "infinity flag with a non-zero payload and redundant sign flags are not required to be rejected (point encodings need not be unique); incomplete twisted-Edwards laws: an exceptional case (Z = 0) classifies the point as outside the subgroup"],
+    },
+    "C18": {
+        "runs": [{"bin": "mon_ser"}, {"bin": "mon_ser", "variant": "rel", "tiers": ["thorough"]}],
+        "assumptions": BASE_ASSUME + [
+            "hostile length prefixes, bit flips and uniform bytes run in a re-executed child (RLIMIT_AS 4 GiB, 1 GiB request cap, 20 s watchdog); a dead child is the violation alloc-abort",
+            "allocation bound: largest single request <= 64*len(input) + 1 MiB; sequences of zero-sized elements are excluded from hostile-prefix cases (DESIGN §7)"],
+    },
 }
